@@ -39,12 +39,31 @@ pub struct Cfg {
     pub flavour: String,
     /// divides every random budget (used by the slow auxiliary flavours: Miri, ASan, valgrind)
     pub budget_div: u64,
+    /// coverage-guided mode (src/fuzz.rs): the seed-independent lattice parts are skipped, every random loop runs
+    /// `FUZZ_ITERS` iterations, and the PRNG of the workload is fed from the bytes of the fuzzer's input
+    pub fuzz: bool,
 }
+
+pub const FUZZ_ITERS: u64 = 3;
 
 impl Cfg {
     /// n random cases for this shard given a quick-tier total of `quick_total` over all shards.
     pub fn budget(&self, quick_total: u64) -> u64 {
+        if self.fuzz {
+            return FUZZ_ITERS;
+        }
         ((quick_total * self.scale) / NSHARDS as u64 / self.budget_div.max(1)).max(1)
+    }
+    /// Loop index as the workload sees it: the plain index in a normal run; in the coverage-guided mode a value taken
+    /// from the input bytes, so that every `k % n == 0` stratum of a loop is reachable within the few iterations an
+    /// input pays for (the fuzzer keeps the inputs that reach a new stratum).
+    #[inline]
+    pub fn k(&self, k: u64, r: &mut Rng) -> u64 {
+        if self.fuzz {
+            r.below(1 << 13)
+        } else {
+            k
+        }
     }
 }
 
@@ -54,6 +73,13 @@ impl Cfg {
 #[derive(Clone)]
 pub struct Rng {
     s: [u64; 4],
+    /// coverage-guided mode: 64-bit words are taken from these bytes first (little endian), then from the generator
+    feed: Option<(std::rc::Rc<Vec<u8>>, usize)>,
+}
+
+thread_local! {
+    /// input of the coverage-guided driver for the workload running on this thread (None in every normal run)
+    pub static FUZZ_FEED: RefCell<Option<std::rc::Rc<Vec<u8>>>> = const { RefCell::new(None) };
 }
 fn splitmix(x: &mut u64) -> u64 {
     *x = x.wrapping_add(0x9E3779B97F4A7C15);
@@ -66,10 +92,19 @@ impl Rng {
     pub fn new(seed: u64, stream: u64) -> Self {
         let mut x = seed ^ stream.wrapping_mul(0xD1342543DE82EF95) ^ 0x5851F42D4C957F2D;
         let s = [splitmix(&mut x), splitmix(&mut x), splitmix(&mut x), splitmix(&mut x)];
-        Rng { s }
+        let feed = FUZZ_FEED.with(|f| f.borrow().clone()).map(|b| (b, 0usize));
+        Rng { s, feed }
     }
     #[inline]
     pub fn u64(&mut self) -> u64 {
+        if let Some((b, pos)) = &mut self.feed {
+            if *pos + 8 <= b.len() {
+                let mut w = [0u8; 8];
+                w.copy_from_slice(&b[*pos..*pos + 8]);
+                *pos += 8;
+                return u64::from_le_bytes(w);
+            }
+        }
         let r = self.s[1].wrapping_mul(5).rotate_left(7).wrapping_mul(9);
         let t = self.s[1] << 17;
         self.s[2] ^= self.s[0];
@@ -256,6 +291,8 @@ pub struct Rep {
     /// sampled event log for the offline second-opinion checker (tools/offline_check.py)
     pub log: Vec<String>,
     pub log_seen: BTreeMap<String, u64>,
+    /// coverage-guided mode: no samples, no event log (a fresh report per input would otherwise format every event)
+    pub lean: bool,
 }
 
 pub const LOG_CAP_PER_SHARD: usize = 3000;
@@ -279,6 +316,7 @@ impl Rep {
             verbose: replay.is_some(),
             log: Vec::new(),
             log_seen: BTreeMap::new(),
+            lean: false,
         }
     }
 
@@ -328,6 +366,9 @@ impl Rep {
     }
 
     pub fn sample(&mut self, class: &str, f: impl FnOnce() -> String) {
+        if self.lean {
+            return;
+        }
         let v = self.samples.entry(class.to_string()).or_default();
         if v.len() < 2 {
             v.push(f());
@@ -338,6 +379,9 @@ impl Rep {
     /// each op and then one in 997, up to a cap per shard. `f` builds the JSON object body (without braces).
     #[inline]
     pub fn log_event(&mut self, op: &str, f: impl FnOnce() -> String) {
+        if self.lean {
+            return;
+        }
         let n = self.log_seen.entry(op.to_string()).or_insert(0);
         *n += 1;
         if (*n <= 40 || *n % 997 == 0) && self.log.len() < LOG_CAP_PER_SHARD {
